@@ -3,9 +3,11 @@ CONSTANTS
   Members = {"p", "q", "r"}
   Vals = {1, 2, 3}
   HwMax = 2
+  HwModes = {"clip", "refuse"}
 INVARIANT TypeOK
 INVARIANT Agree
 PROPERTY WriteLands
+PROPERTY RefusedNotStored
 PROPERTY ReadShowsHw
 PROPERTY CacheOpsKeepHw
 CHECK_DEADLOCK FALSE
